@@ -19,11 +19,12 @@ import ast
 from typing import Any
 
 from ..engine.absint import Interp, Obj, _Raise
-from ..engine.cfg import CFG
+from ..engine.cfg import CFG, own_parts
 from ..engine.nandomain import F, NanInterp
 from ..engine.report import AnalysisError, Run
 from ..engine.resolver import ClassInfo, FuncInfo, Program, body_walk
 from ..engine.util import find_calls, method_call, u
+from ._c06_util import Flow, cmp_eval, lifted, pruned, spliced
 from .c13 import _self_fields, step_classes
 
 ENGINE = "timeseries.formula_engine._formula_engine"
@@ -522,23 +523,105 @@ def _fmt(tokens: list[Any]) -> str:
 
 # ---------------------------------------------------------------------------------------------
 def check_eval(run: Run, prog: Program) -> None:
-    fn = prog.func(f"{EVAL}:FormulaEvaluator.apply")
-    run.analysed(fn.qual)
-    cfg = CFG(fn.node, fn.file)
-    loops = [s for s in body_walk(fn.node) if isinstance(s, ast.For) and u(s.iter) == "self._steps"]
-    ok = len(loops) == 1 and len(loops[0].body) == 1 and u(loops[0].body[0]) == f"{u(loops[0].target)}.apply(eval_stack)"
-    run.check(ok, "C05.EVAL", fn.qual, "for step in self._steps: step.apply(eval_stack)",
+    raw = prog.func(f"{EVAL}:FormulaEvaluator.apply")
+    run.analysed(raw.qual)
+    fn = spliced(prog, raw)
+    fl = Flow(prog, fn)
+    cfg = fl.cfg
+    normal = lambda a, b, lab: not lab.startswith("exc:")  # noqa: E731
+    # --- the loop over self._steps (exactly that list, in its own order) applying every step to one stack
+    loops = [n for n in cfg.nodes if n.kind == "for" and n.id in fl.live and not isinstance(n.ast, ast.AsyncFor)
+             and all(o.kind == "expr" and u(o.node) == "self._steps" for o in fl.origin(n.ast.iter, n.id))]  # type: ignore[union-attr]
+    others = [c for _n, c in fl.calls(lambda c: isinstance(c.func, ast.Attribute) and c.func.attr == "apply")]
+    ok = len(loops) == 1
+    stack_init: ast.AST | None = None
+    if ok:
+        h = loops[0]
+        first = [m for m, lab in cfg.succ[h.id] if lab == "iter"]
+        region = cfg.reachable(first, avoid=[h.id], edge_ok=normal)
+        calls = [(nid, c) for nid, c in fl.calls(lambda c: isinstance(c.func, ast.Attribute) and c.func.attr == "apply")
+                 if nid in region and all(o.kind == "iter" and o.nid == h.id and o.idx is None for o in fl.origin(c.func.value, nid))]  # type: ignore[union-attr]
+        ok = len(calls) == 1 and len(others) == 1 and len(calls[0][1].args) == 1 and not calls[0][1].keywords \
+            and isinstance(h.ast.target, ast.Name)  # type: ignore[union-attr]
+        if ok:
+            cn, call = calls[0]
+            # unconditional, and the loop is only left when the list is exhausted (or by an exception)
+            ok = (first[0] == cn or cfg.path(first[0], [h.id], avoid=[cn], edge_ok=normal) is None) \
+                and not any(isinstance(x, (ast.Break, ast.Return)) for st in h.ast.body for x in ast.walk(st))  # type: ignore[union-attr]
+            o = fl.origin1(call.args[0], cn)
+            if ok and o is not None and o.kind == "expr":
+                stack_init = o.node
+            # nothing else touches the stack while the steps run
+            ok = ok and stack_init is not None and not [
+                x for n in region for part in own_parts(cfg.nodes[n]) for x in ast.walk(part)
+                if isinstance(x, ast.Name) and x is not call.args[0] and isinstance(x.ctx, ast.Load)
+                and fl.is_node(x, stack_init, n)]
+    run.check(ok, "C05.EVAL", raw.qual, "for step in self._steps: step.apply(eval_stack)",
               "the evaluator does not apply every step, in list order, to the same stack",
-              node=fn.node, file=fn.file)
-    inits = [s for s in body_walk(fn.node) if isinstance(s, (ast.Assign, ast.AnnAssign))
-             and u(s.targets[0] if isinstance(s, ast.Assign) else s.target) == "eval_stack"]
-    ok = len(inits) == 1 and u(inits[0].value) == "[]"
-    run.check(ok, "C05.EVAL", fn.qual, "eval_stack = [] per evaluation",
-              "the evaluation stack is not fresh for every evaluation", node=fn.node, file=fn.file)
-    tests = [t for t in cfg.nodes if t.kind == "test" and u(t.ast).replace(" ", "") == "len(eval_stack)!=1"]
-    ok = len(tests) == 1 and any(isinstance(cfg.nodes[m].ast, ast.Raise) for m, lab in cfg.succ[tests[0].id] if lab == "true")
-    run.check(ok, "C05.EVAL", fn.qual, "exactly one residual value required",
-              "a malformed evaluation (more or fewer than one value left) is not rejected", node=fn.node, file=fn.file)
+              node=raw.node, file=raw.file)
+    ok = stack_init is not None and (
+        (isinstance(stack_init, ast.List) and not stack_init.elts)
+        or (isinstance(stack_init, ast.Call) and u(stack_init.func) == "list" and not stack_init.args and not stack_init.keywords))
+    if ok:
+        assert stack_init is not None
+        made = fl.node_of(stack_init)
+        # created in this call, before the loop, and not filled by anything but the steps
+        ok = cfg.path(cfg.entry, [loops[0].id], avoid=[made]) is None and not [
+            c for nid, c in fl.calls(lambda c: isinstance(c.func, ast.Attribute) and c.func.attr in (
+                "append", "extend", "insert", "push", "appendleft"))
+            if fl.is_node(c.func.value, stack_init, nid)]  # type: ignore[union-attr]
+    run.check(ok, "C05.EVAL", raw.qual, "eval_stack = [] per evaluation",
+              "the evaluation stack is not fresh for every evaluation", node=raw.node, file=raw.file)
+    # --- exactly one residual value: with 0, 2 or 3 values left the evaluation cannot complete normally
+    ok = stack_init is not None and len(loops) == 1
+    wit = None
+    if ok:
+        assert stack_init is not None
+        done = [m for m, lab in cfg.succ[loops[0].id] if lab == "done"]
+        post = cfg.reachable(done, edge_ok=normal)
+
+        def touches(c: ast.Call, nid: int) -> bool:
+            if u(c.func) == "len":
+                return False
+            if isinstance(c.func, ast.Attribute) and isinstance(c.func.value, ast.Name) and fl.is_node(c.func.value, stack_init, nid):
+                return True
+            return any(isinstance(a, ast.Name) and fl.is_node(a, stack_init, nid) for a in list(c.args) + [k.value for k in c.keywords])
+
+        mutators = [nid for nid, c in fl.calls(lambda c: True) if nid in post and touches(c, nid)]
+        clean = cfg.reachable(done, avoid=mutators, edge_ok=normal)
+
+        def size_atom(n: int) -> Any:
+            def val(e: ast.AST, nid: int, fuel: int = 4) -> int | None:
+                if isinstance(e, ast.Constant) and isinstance(e.value, int) and not isinstance(e.value, bool):
+                    return e.value
+                if isinstance(e, ast.Call) and u(e.func) == "len" and len(e.args) == 1 and nid in clean \
+                        and fl.is_node(e.args[0], stack_init, nid):
+                    return n
+                if isinstance(e, ast.Name) and fuel > 0:
+                    o = fl.origin1(e, nid)
+                    if o is not None and o.kind == "expr" and o.node is not None and o.nid is not None and not isinstance(o.node, ast.Name):
+                        return val(o.node, o.nid, fuel - 1)
+                return None
+
+            def atom(e: ast.AST, nid: int) -> bool | None:
+                if isinstance(e, ast.Compare) and len(e.ops) == 1:
+                    a, b = val(e.left, nid), val(e.comparators[0], nid)
+                    if a is not None and b is not None:
+                        return cmp_eval(e.ops[0], a, b)
+                    return None
+                if isinstance(e, ast.Name) and nid in clean and fl.is_node(e, stack_init, nid):
+                    return n > 0
+                v = val(e, nid)
+                return None if v is None or isinstance(e, ast.Constant) else v != 0
+            return atom
+
+        for n in (0, 2, 3):
+            for d in done:
+                wit = wit or (cfg.path(d, [cfg.exit], edge_ok=pruned(cfg, lifted(fl, size_atom(n)))) if d != cfg.exit else [(d, "")])
+        ok = wit is None and any(cfg.path(d, [cfg.exit], edge_ok=pruned(cfg, lifted(fl, size_atom(1)))) is not None for d in done)
+    run.check(ok, "C05.EVAL", raw.qual, "exactly one residual value required",
+              "a malformed evaluation (more or fewer than one value left) is not rejected", node=raw.node, file=raw.file,
+              path=cfg.describe_path(wit))
     fin = prog.func(f"{ENGINE}:FormulaBuilder.finalize")
     run.analysed(fin.qual)
     txt = u(fin.node).replace(" ", "").replace("\n", "")
